@@ -25,6 +25,13 @@ func openBleveIndex(path string) (*bleveIndex, error) {
 		return &bleveIndex{path: path, index: index}, nil
 	}
 
+	// The index is not there, or a process died while creating it and left something that can
+	// neither be opened nor created over. It only holds derived data: start again from nothing.
+	err = os.RemoveAll(path)
+	if err != nil {
+		return nil, err
+	}
+
 	b := &bleveIndex{path: path}
 	err = b.makeIndex()
 	if err != nil {
